@@ -1,22 +1,24 @@
 (* C03 - find visit order: pre/post-order (-depth); -prune cuts exactly one subtree. *)
-Require Import Walk WalkPre WalkPost WalkSpec.
+Require Import Walk WalkPre WalkSpec WalkDefer.
 From Coq Require Import List Arith Bool.
 Import ListNotations.
 
 (* default order: a directory is reported, then (unless pruned or at maxdepth) its children in
    the order given, each with its whole subtree ([pre] is that recursion) *)
-Theorem C03_preorder : forall c P n, post c = false -> mind c <= maxd c -> walk c P n = pre c P [] 0 n.
+Theorem C03_preorder : forall c P n, post c = false -> walk c P n = pre c P [] 0 n.
 Proof. exact walk_pre. Qed.
 Print Assumptions C03_preorder.
 
-(* -depth / -delete: children first, then the directory; the prune verdict does not occur in [posto] *)
-Theorem C03_postorder : forall c P n, post c = true -> mind c <= maxd c -> walk c P n = posto c [] 0 n.
+(* -depth / -delete: children first, then the directory; the prune verdict does not occur in [posto].  The order is
+   produced by process_dir itself: walkdir reports in pre-order and directories wait until the walk leaves them
+   ([defer], Proofs/WalkDefer.v: defer_subtree) *)
+Theorem C03_postorder : forall c P n, post c = true -> walk c P n = posto c [] 0 n.
 Proof. exact walk_post. Qed.
 Print Assumptions C03_postorder.
 
 (* -prune removes exactly the entries strictly below a pruned in-range directory; siblings and
    every other subtree are reported exactly as without -prune, in the same order *)
-Theorem C03_prune_exact : forall c P n, post c = false -> mind c <= maxd c ->
+Theorem C03_prune_exact : forall c P n, post c = false ->
   walk c P n = filter (fun e => negb (anc_pruned c P (ev_path e))) (walk c noP n).
 Proof. exact walk_prune_exact. Qed.
 Print Assumptions C03_prune_exact.
@@ -26,8 +28,9 @@ Theorem C03_prune_noop_under_depth : forall c P n, post c = true -> walk c P n =
 Proof. exact walk_prune_noop_under_depth. Qed.
 Print Assumptions C03_prune_noop_under_depth.
 
-(* the pinned code violated this: skip_current_dir after a deferred directory popped the parent's
-   list (kept as a regression witness: model with fixed := false on r/{p/{a/x, b/y, c/z}, q}) *)
+(* the pinned code violated this: it ran walkdir with contents_first, and skip_current_dir after a deferred directory
+   popped the parent's list (kept as a regression witness: the iterator in that mode with fixed := false on
+   r/{p/{a/x, b/y, c/z}, q}) *)
 Example C03_pinned_defect_witness :
   let t := Dir [(1, Dir [(11, Dir [(111,Leaf)]); (12, Dir [(121,Leaf)]); (13, Dir [(131,Leaf)])]); (2, Leaf)] in
   let pruneB := fun (rp : rpath) (_ : nat) => match rp with 12 :: _ => true | _ => false end in
